@@ -170,7 +170,7 @@ impl Prop for C17 {
     fn runs(&self, tier: Tier) -> u64 {
         match tier {
             Tier::Quick => 30_000,
-            Tier::Thorough => 2_000_000,
+            Tier::Thorough => 1_000_000,
         }
     }
     fn generate(&self, i: u64, r: &mut Rng, _tier: Tier) -> Scenario {
@@ -279,8 +279,45 @@ impl Prop for C17 {
         sc
     }
 
+    fn post_batch(&self, seed: u64, total: u64, tier: Tier) -> Vec<Scenario> {
+        let mut sc = Scenario::new("C17", "crossproc");
+        let runs = total.min(if tier == Tier::Quick { 4_000 } else { 100_000 });
+        sc.set_int("seed", seed as i64);
+        sc.set_int("runs", runs as i64);
+        sc.set_int("thorough", (tier == Tier::Thorough) as i64);
+        vec![sc]
+    }
+
     fn execute(&self, sc: &Scenario) -> RunOut {
         let mut out = RunOut::default();
+        if sc.mode == "crossproc" {
+            // the same seeds in two further OS processes (fresh ASLR, fresh hasher seeds), 3 and 16 workers
+            let seed = sc.int("seed").unwrap_or(0) as u64;
+            let runs = sc.int("runs").unwrap_or(0).max(1) as u64;
+            let tier = if sc.int("thorough").unwrap_or(0) != 0 { "thorough" } else { "quick" };
+            let child = |workers: &str| -> Option<String> {
+                let exe = std::env::current_exe().ok()?;
+                let o = std::process::Command::new(exe).args(["run", "C17", tier, "--seed", &seed.to_string(), "--runs", &runs.to_string(), "--workers", workers, "--hash-only"]).output().ok()?;
+                let s = String::from_utf8_lossy(&o.stdout).to_string();
+                s.lines().find(|l| l.starts_with("BATCH-HASH")).and_then(|l| l.split("hash=").nth(1)).map(|x| x.trim().to_string())
+            };
+            let (a, b) = (child("3"), child("16"));
+            match (a, b) {
+                (Some(a), Some(b)) => {
+                    out.stats.add("oracle.cross_process_runs_compared", runs);
+                    out.stats.hit("reach.cross_process_pair");
+                    out.nontrivial = true;
+                    if a != b {
+                        out.violation = Some(Violation::new("cross_process_divergence", "", 0, format!("the same {} seeds executed in two separate processes gave different history hashes: {} vs {}", runs, a, b)));
+                    }
+                }
+                _ => {
+                    eprintln!("HARNESS ERROR: could not run the cross-process children");
+                    std::process::exit(2);
+                }
+            }
+            return out;
+        }
         if let Err(e) = domain_check(sc, MAX_MAG) {
             out.invalid = Some(e);
             return out;
